@@ -428,6 +428,11 @@ def single_defs(fn: ast.AST) -> Dict[str, ast.expr]:
 
 def expand_src(fn: ast.AST, node: ast.AST, depth: int = 3) -> str:
     """source of `node` with once-bound local names replaced by their defining expressions"""
+    return src(expand_ast(fn, node, depth))
+
+
+def expand_ast(fn: ast.AST, node: ast.AST, depth: int = 3) -> ast.AST:
+    """a copy of `node` with once-bound local names replaced by their defining expressions"""
     defs = single_defs(fn)
 
     class _S(ast.NodeTransformer):
@@ -439,4 +444,4 @@ def expand_src(fn: ast.AST, node: ast.AST, depth: int = 3) -> str:
     for _ in range(depth):
         new = _S().visit(cur)
         cur = new
-    return src(cur)
+    return cur
